@@ -121,57 +121,153 @@ fn swap_join_condition(cond: &BoundExpression) -> BoundExpression {
     }
 }
 
-/// Shifts column indices by offset.
-fn shift_columns(expr: &BoundExpression, offset: i32) -> Option<BoundExpression> {
-    match expr {
-        BoundExpression::ColumnBinding(c) => {
-            let new_idx = c.column_idx as i32 + offset;
-            if new_idx < 0 {
-                None
-            } else {
-                Some(BoundExpression::ColumnBinding(Binding {
-                    column_idx: new_idx as usize,
-                    ..*c
-                }))
-            }
-        }
+/// Rebuilds `expr` with every column reference `i` replaced by `f(i)`; `None` as soon as `f`
+/// rejects a column. Covers every expression form that can hold a column reference
+/// (sub-queries are bound in their own scope and are left untouched).
+fn map_columns(
+    expr: &BoundExpression,
+    f: &dyn Fn(usize) -> Option<usize>,
+) -> Option<BoundExpression> {
+    let go = |e: &BoundExpression| map_columns(e, f);
+    let go_box = |e: &Box<BoundExpression>| map_columns(e, f).map(Box::new);
+    Some(match expr {
+        BoundExpression::ColumnBinding(c) => BoundExpression::ColumnBinding(Binding {
+            column_idx: f(c.column_idx)?,
+            ..*c
+        }),
         BoundExpression::BinaryOp {
             left,
             op,
             right,
             result_type,
-        } => Some(BoundExpression::BinaryOp {
-            left: Box::new(shift_columns(left, offset)?),
+        } => BoundExpression::BinaryOp {
+            left: go_box(left)?,
             op: *op,
-            right: Box::new(shift_columns(right, offset)?),
+            right: go_box(right)?,
             result_type: *result_type,
-        }),
-        BoundExpression::Literal { .. } => Some(expr.clone()),
-        _ => Some(expr.clone()),
-    }
+        },
+        BoundExpression::UnaryOp {
+            op,
+            expr,
+            result_type,
+        } => BoundExpression::UnaryOp {
+            op: *op,
+            expr: go_box(expr)?,
+            result_type: *result_type,
+        },
+        BoundExpression::Function {
+            func,
+            args,
+            distinct,
+            return_type,
+        } => BoundExpression::Function {
+            func: func.clone(),
+            args: args.iter().map(go).collect::<Option<Vec<_>>>()?,
+            distinct: *distinct,
+            return_type: *return_type,
+        },
+        BoundExpression::Aggregate {
+            func,
+            arg,
+            distinct,
+            return_type,
+        } => BoundExpression::Aggregate {
+            func: func.clone(),
+            arg: match arg {
+                Some(a) => Some(go_box(a)?),
+                None => None,
+            },
+            distinct: *distinct,
+            return_type: *return_type,
+        },
+        BoundExpression::Case {
+            operand,
+            when_then,
+            else_expr,
+            result_type,
+        } => BoundExpression::Case {
+            operand: match operand {
+                Some(o) => Some(go_box(o)?),
+                None => None,
+            },
+            when_then: when_then
+                .iter()
+                .map(|(w, t)| Some((go(w)?, go(t)?)))
+                .collect::<Option<Vec<_>>>()?,
+            else_expr: match else_expr {
+                Some(e) => Some(go_box(e)?),
+                None => None,
+            },
+            result_type: *result_type,
+        },
+        BoundExpression::InList {
+            expr,
+            list,
+            negated,
+        } => BoundExpression::InList {
+            expr: go_box(expr)?,
+            list: list.iter().map(go).collect::<Option<Vec<_>>>()?,
+            negated: *negated,
+        },
+        BoundExpression::Between {
+            expr,
+            low,
+            high,
+            negated,
+        } => BoundExpression::Between {
+            expr: go_box(expr)?,
+            low: go_box(low)?,
+            high: go_box(high)?,
+            negated: *negated,
+        },
+        BoundExpression::IsNull { expr, negated } => BoundExpression::IsNull {
+            expr: go_box(expr)?,
+            negated: *negated,
+        },
+        BoundExpression::InSubquery {
+            expr,
+            query,
+            negated,
+        } => BoundExpression::InSubquery {
+            expr: go_box(expr)?,
+            query: query.clone(),
+            negated: *negated,
+        },
+        BoundExpression::Literal { .. }
+        | BoundExpression::Subquery { .. }
+        | BoundExpression::Exists { .. }
+        | BoundExpression::Star => expr.clone(),
+    })
+}
+
+/// All column indices referenced by `expr`.
+fn referenced_columns(expr: &BoundExpression) -> Vec<usize> {
+    let cols = std::cell::RefCell::new(Vec::new());
+    let _ = map_columns(expr, &|i| {
+        cols.borrow_mut().push(i);
+        Some(i)
+    });
+    cols.into_inner()
+}
+
+/// Shifts column indices by offset.
+fn shift_columns(expr: &BoundExpression, offset: i32) -> Option<BoundExpression> {
+    map_columns(expr, &|i| {
+        let new_idx = i as i32 + offset;
+        (new_idx >= 0).then_some(new_idx as usize)
+    })
 }
 
 /// Checks if all columns in expr have index >= min.
 fn all_columns_ge(expr: &BoundExpression, min: usize) -> bool {
-    match expr {
-        BoundExpression::ColumnBinding(c) => c.column_idx >= min,
-        BoundExpression::BinaryOp { left, right, .. } => {
-            all_columns_ge(left, min) && all_columns_ge(right, min)
-        }
-        BoundExpression::Literal { .. } => true,
-        _ => true,
-    }
+    referenced_columns(expr).into_iter().all(|i| i >= min)
 }
 
 /// Checks if any column in expr is in range [start, end).
 fn any_column_in_range(expr: &BoundExpression, start: usize, end: usize) -> bool {
-    match expr {
-        BoundExpression::ColumnBinding(c) => c.column_idx >= start && c.column_idx < end,
-        BoundExpression::BinaryOp { left, right, .. } => {
-            any_column_in_range(left, start, end) || any_column_in_range(right, start, end)
-        }
-        _ => false,
-    }
+    referenced_columns(expr)
+        .into_iter()
+        .any(|i| i >= start && i < end)
 }
 
 /// Combines predicates with AND.
@@ -303,76 +399,16 @@ fn classify_predicates(
 
 /// Checks if expression uses left/right columns.
 fn check_column_usage(expr: &BoundExpression, left_cols: usize) -> (bool, bool) {
-    match expr {
-        BoundExpression::ColumnBinding(c) => {
-            if c.column_idx < left_cols {
-                (true, false)
-            } else {
-                (false, true)
-            }
-        }
-        BoundExpression::BinaryOp { left, right, .. } => {
-            let (l1, r1) = check_column_usage(left, left_cols);
-            let (l2, r2) = check_column_usage(right, left_cols);
-            (l1 || l2, r1 || r2)
-        }
-        BoundExpression::UnaryOp { expr, .. } | BoundExpression::IsNull { expr, .. } => {
-            check_column_usage(expr, left_cols)
-        }
-        BoundExpression::InList { expr, list, .. } => {
-            let (mut l, mut r) = check_column_usage(expr, left_cols);
-            for i in list {
-                let (l2, r2) = check_column_usage(i, left_cols);
-                l = l || l2;
-                r = r || r2;
-            }
-            (l, r)
-        }
-        BoundExpression::Between {
-            expr, low, high, ..
-        } => {
-            let (l1, r1) = check_column_usage(expr, left_cols);
-            let (l2, r2) = check_column_usage(low, left_cols);
-            let (l3, r3) = check_column_usage(high, left_cols);
-            (l1 || l2 || l3, r1 || r2 || r3)
-        }
-        _ => (false, false),
-    }
+    let cols = referenced_columns(expr);
+    (
+        cols.iter().any(|&i| i < left_cols),
+        cols.iter().any(|&i| i >= left_cols),
+    )
 }
 
 /// Rewrites column references using a mapping.
 fn rewrite_with_mapping(expr: &BoundExpression, mapping: &[usize]) -> BoundExpression {
-    match expr {
-        BoundExpression::ColumnBinding(c) => BoundExpression::ColumnBinding(Binding {
-            column_idx: mapping.get(c.column_idx).copied().unwrap_or(c.column_idx),
-            ..*c
-        }),
-        BoundExpression::BinaryOp {
-            left,
-            op,
-            right,
-            result_type,
-        } => BoundExpression::BinaryOp {
-            left: Box::new(rewrite_with_mapping(left, mapping)),
-            op: *op,
-            right: Box::new(rewrite_with_mapping(right, mapping)),
-            result_type: *result_type,
-        },
-        BoundExpression::UnaryOp {
-            op,
-            expr,
-            result_type,
-        } => BoundExpression::UnaryOp {
-            op: *op,
-            expr: Box::new(rewrite_with_mapping(expr, mapping)),
-            result_type: *result_type,
-        },
-        BoundExpression::IsNull { expr, negated } => BoundExpression::IsNull {
-            expr: Box::new(rewrite_with_mapping(expr, mapping)),
-            negated: *negated,
-        },
-        _ => expr.clone(),
-    }
+    map_columns(expr, &|i| Some(mapping.get(i).copied().unwrap_or(i))).unwrap_or_else(|| expr.clone())
 }
 
 /// Creates a column reference expression.
@@ -421,20 +457,54 @@ impl TransformationRule for JoinCommutativityRule {
             return Ok(vec![]);
         }
 
-        let swapped_cond = join.condition.as_ref().map(swap_join_condition);
+        // The swapped join lives in a group of its own below a projection; applying the rule to it
+        // again would make the two groups refer to each other. Swap in one direction only.
+        if expr.children[0].0 >= expr.children[1].0 {
+            return Ok(vec![]);
+        }
+
+        // After the swap the combined row is [right | left]: column references of the condition
+        // move accordingly, and a projection on top puts the output back in [left | right]
+        // order so that every operator above the join keeps seeing the columns it was bound to.
+        let left_cols = join.left_schema.num_columns();
+        let right_cols = join.right_schema.num_columns();
+        let to_swapped = |i: usize| {
+            Some(if i < left_cols {
+                i + right_cols
+            } else {
+                i - left_cols
+            })
+        };
+        let swapped_cond = match join.condition.as_ref() {
+            Some(c) => match map_columns(&swap_join_condition(c), &to_swapped) {
+                Some(c) => Some(c),
+                None => return Ok(vec![]),
+            },
+            None => None,
+        };
         let new_join = JoinOp::new(
             join.join_type,
             swapped_cond,
             join.right_schema.clone(),
             join.left_schema.clone(),
         );
+        let swapped_schema = new_join.output_schema.clone();
+        let swapped_group = _memo.insert_logical_expr(LogicalExpr::new(
+            LogicalOperator::Join(new_join),
+            vec![expr.children[1], expr.children[0]],
+        ));
+
+        let restore: Vec<ProjectExpr> = (0..left_cols + right_cols)
+            .map(|i| ProjectExpr {
+                expr: create_column_ref(to_swapped(i).unwrap(), &swapped_schema),
+                alias: None,
+            })
+            .collect();
+        let project = ProjectOp::new(restore, swapped_schema, join.output_schema.clone());
 
         Ok(vec![
-            LogicalExpr::new(
-                LogicalOperator::Join(new_join),
-                vec![expr.children[1], expr.children[0]],
-            )
-            .with_properties(expr.properties.clone()),
+            LogicalExpr::new(LogicalOperator::Project(project), vec![swapped_group])
+                .with_properties(expr.properties.clone()),
         ])
     }
 }
